@@ -264,10 +264,10 @@ OUT_TARGETS = [["nackresp"], ["rsend"], ["twcchdr"], ["rtpfb"], ["stats"], ["pds
 ALL_CHAIN = ["nackgen", "nackresp", "rrecv", "rsend", "twccsend", "twcchdr", "rfc8888", "rtpfb", "stats", "pdrecv", "pdsend", "pli", "flexfec", "cc"]
 
 
-def prefix(rng, kinds, twcc):
+def prefix(rng, kinds, twcc, rtx=None):
     members = [{"k": k, "o": {"ivl": 1, "size": 64, "k": 2, "n": 1, "rate": 20_000_000}} for k in kinds]
     steps = [{"a": "bindw"}, {"a": "bindr"},
-             {"a": "bindl", "s": 1, "nack": True, "twcc": twcc, "rtx": rng.random() < 0.5, "fec": True},
+             {"a": "bindl", "s": 1, "nack": True, "twcc": twcc, "rtx": (rng.random() < 0.5) if rtx is None else rtx, "fec": True},
              {"a": "bindm", "s": 2, "nack": True, "twcc": 7, "pli": True}]
     # an arbitrary prior history
     for i in range(rng.randrange(0, 8)):
@@ -324,9 +324,9 @@ def script_pause(rng, kinds, n, pause_ms):
     return {"members": members, "steps": steps, "watch": 3000, "settle": 5}
 
 
-def script_out(rng, kinds):
+def script_out(rng, kinds, rtx=None):
     twcc = 7 if "twcchdr" in kinds else 0
-    members, steps = prefix(rng, kinds, twcc)
+    members, steps = prefix(rng, kinds, twcc, rtx)
     w = 300
     for ln in [0, 1, 1459, 1460, 1461, 1500, 65535, 2, 1460]:
         for shape in ([0, 3] if ln > 1461 else [0, 1, 2, 3]):
@@ -446,7 +446,8 @@ def run(ctx):
             scripts.append(script_in(rng, kinds, ch, "rtp"))
         distinct += len({tuple(b) for b in pool})
     for kinds in OUT_TARGETS + [ALL_CHAIN]:
-        scripts.append(script_out(rng, kinds))
+        for rtx in (True, False):        # (with and without RFC 4588 retransmission negotiated: both, not one at random)
+            scripts.append(script_out(rng, kinds, rtx))
     for kinds in [["rfc8888"], ["rrecv"], ["nackgen"], ["stats"], ["twccsend"], ALL_CHAIN]:
         scripts.append(script_flood(rng, kinds, 400 if ctx.quick else 3000))
     for kinds in [["twccsend"], ["rfc8888"], ["nackgen"], ["rrecv"], ["jitter"], ["stats"], ALL_CHAIN]:
